@@ -453,7 +453,8 @@ pub fn check(tier: &str, std_bin: &str) -> i32 {
     // ---- parts 1 and 2: exhaustive schedule exploration of the real code
     let mut cfgs: Vec<(String, Cfg)> = vec![];
     for w in [2usize, 3] {
-        for days in [0i64, 1, 2, w as i64, w as i64 + 1, 2 * w as i64 + 1] {
+        // -2: a range whose end lies three days before its start (an empty range, like 0)
+        for days in [-2i64, 0, 1, 2, w as i64, w as i64 + 1, 2 * w as i64 + 1] {
             for threshold in [0usize, 1] {
                 let c = Cfg { w, days, threshold, fine: false, bound: None };
                 // quick: unbounded for <= 2 partitions and for the 3-partition configurations with threshold 0
